@@ -117,7 +117,8 @@ func runC18Stream(t fataler, c c18Case) (string, c18Result) {
 		raw := payload
 		comp := lc.Agreed.Deflate && i%2 == 1
 		if comp {
-			raw = def.Message(payload, ref.DVSync)
+			// every foreign way of ending a compressed message in turn (a final block hands its last bytes over together with the end of the stream)
+			raw = def.Message(payload, ref.DeflateVariant((i/2+c.WrongAt)%int(ref.NumDeflateVariants)))
 		}
 		per := len(raw)/c.InFrags + 1
 		for j, off := 0, 0; j < c.InFrags; j++ {
@@ -291,7 +292,7 @@ func runC18Stream(t fataler, c c18Case) (string, c18Result) {
 
 func TestC18(t *testing.T) {
 	rec := evid.For("C18")
-	rec.Rule = "stream: rapid draws inbound message sizes (0..70000, boundary-biased, fragmented, alternately compressed, optionally each preceded by a Ping, the transport delivering at most 1/2/7 bytes per read or everything at once) against cycled Read buffer sizes (1..100000), Write sizes, message type, role/compression, and an ending {peer Close 1000, 1001, another code or empty - with the peer waiting for the echo or hanging up right behind its Close frame -, transport EOF, transport reset, a message of the wrong type at a drawn position}; deadlines: rapid-drawn scripts of SetReadDeadline/SetWriteDeadline/SetDeadline (past, future, zero) before, between and during calls on the fake clock. Non-trivial: a read buffer smaller than a message (message spans several reads), or an idle expiry followed by a reset and further traffic. distinct = hash of the case."
+	rec.Rule = "stream: rapid draws inbound message sizes (0..70000, boundary-biased, fragmented, alternately compressed by every foreign deflater variant incl. BFINAL=1 endings, optionally each preceded by a Ping, the transport delivering at most 1/2/7 bytes per read or everything at once) against cycled Read buffer sizes (1..100000), Write sizes, message type, role/compression, and an ending {peer Close 1000, 1001, another code or empty - with the peer waiting for the echo or hanging up right behind its Close frame -, transport EOF, transport reset, a message of the wrong type at a drawn position}; deadlines: rapid-drawn scripts of SetReadDeadline/SetWriteDeadline/SetDeadline (past, future, zero) before, between and during calls on the fake clock. Non-trivial: a read buffer smaller than a message (message spans several reads), or an idle expiry followed by a reset and further traffic. distinct = hash of the case."
 	rapid.Check(t, func(rt *rapid.T) {
 		c := genC18(rt)
 		var msg string
